@@ -118,6 +118,7 @@ def check(ctx, rep):
     rep.rule("R10a", "cache deserialised only under now - mtime(cache) < cachetime (strict, right quantities)", floor=1)
     rep.rule("R10b", "fromcache falsy unless the load succeeded; no rewrite of the cache on a hit", floor=3)
     rep.rule("R10c", "savecache() after the last mutation of the entry list and before the protocol renders; handlers never render", floor=3)
+    rep.rule("R10e", "entries are cached by complete pickling: no value-dependent pickle hooks on entry classes", floor=1)
     rep.rule("R10d", "UMN merge and sort only on freshly generated entries; prepare() falsy exactly on a cache hit", floor=2)
     dirbase = ctx.cls("handlers.dir.DirHandler")
     if dirbase is None:
@@ -298,6 +299,49 @@ def check(ctx, rep):
     rep.add("R10c", "protocols never save the cache themselves", not hits, "pygopherd/protocols",
             "savecache() called from a protocol (after entries may have been rendered and rewritten): " + "; ".join(hits) if hits else "",
             key="R10c|protocol-save", nontrivial=False)
+
+    # ------------------------------------------------------------------ R10e
+    ge = ctx.cls("gopherentry.GopherEntry")
+    if ge is None:
+        rep.fail("R10e", "GopherEntry", detail="entry class not found")
+    else:
+        for E in prog.subclasses(ge):
+            problems = []
+            hooks = [h for h in ("__getstate__", "__reduce__", "__reduce_ex__", "__getnewargs__", "__getnewargs_ex__", "__setstate__", "__slots__") if h in E.methods or h in E.attrs]
+            gs = E.methods.get("__getstate__")
+            for h in hooks:
+                if h in ("__reduce__", "__reduce_ex__", "__getnewargs__", "__getnewargs_ex__", "__slots__"):
+                    problems.append(f"{h} customises how entries are pickled: cannot show that a cached entry equals the generated one")
+            if gs is not None:
+                dropped = set()
+                ok_shape = False
+                for n in ast.walk(gs.node):
+                    if isinstance(n, (ast.DictComp, ast.ListComp, ast.GeneratorExp)) and any(g.ifs for g in n.generators):
+                        problems.append("__getstate__ filters the fields by value: a field that is set but falsy (size 0, port 0, empty name) is dropped from the cache and "
+                                        "comes back as 'unset', so the cached listing differs from the generated one")
+                    if isinstance(n, ast.Call) and isinstance(n.func, ast.Attribute) and n.func.attr == "pop" and n.args and isinstance(n.args[0], ast.Constant):
+                        dropped.add(n.args[0].value)
+                    if isinstance(n, ast.Delete):
+                        for t in n.targets:
+                            if isinstance(t, ast.Subscript) and isinstance(t.slice, ast.Constant):
+                                dropped.add(t.slice.value)
+                    if isinstance(n, ast.Attribute) and norm(n) == "self.__dict__":
+                        ok_shape = True
+                if not ok_shape:
+                    problems.append("__getstate__ does not start from the full self.__dict__")
+                # dropped fields must be restored on load
+                lc = prog.resolve_method(dirbase, "loadcache")
+                restorers = [E.methods.get("__setstate__"), lc]
+                for k in sorted(dropped):
+                    restored = any(r is not None and any((isinstance(x, ast.Call) and isinstance(x.func, ast.Attribute) and x.func.attr == f"set{k}") or
+                                                         (isinstance(x, ast.Attribute) and isinstance(x.ctx, ast.Store) and x.attr == k) for x in ast.walk(r.node))
+                                   for r in restorers)
+                    if not restored:
+                        problems.append(f"field '{k}' is left out of the cache and never restored after loading")
+            elif "__setstate__" in hooks:
+                problems.append("__setstate__ without __getstate__ rewrites loaded entries")
+            rep.add("R10e", f"{E.qualname}: cached by complete pickling", not problems, ctx.where(E.module, E.node), "; ".join(sorted(set(problems))),
+                    key=f"R10e|{E.qualname}", nontrivial=bool(hooks))
 
     # ------------------------------------------------------------------ R10d
     dp = prog.resolve_method(dirbase, "prepare")
